@@ -49,6 +49,10 @@ def generate(ck):
     ]
     descs.append({"cls": "ideal", "nx": 40, "p_i": 8000.0, "p_f": 100.0, "alpha_var": {"kind": "linear", "beta": 3.0}, "grid": {"family": "dyadic-blocks", "nt": 60, "t_end": 2.0, "seed": 4}})
     descs.append({"cls": "ideal", "nx": 30, "p_i": 8000.0, "p_f": 100.0, "alpha_var": {"kind": "stored-x", "beta": 3.0}, "grid": {"family": "quadratic", "nt": 80, "t_end": 2.0, "seed": 4}})
+    # very long histories: 400 x 85 000 = 3.4e7 stored values (beyond 2^24 and 2^25)
+    descs.append({"kind": "huge", "cls": "ideal", "nx": 400, "p_i": 8000.0, "p_f": 100.0, "grid": {"family": "quadratic", "nt": 85001, "t_end": 0.5, "seed": 0}})
+    if ck.tier == "thorough":
+        descs.append({"kind": "huge", "cls": "single", "nx": 400, "table": {"kind": "shipped", "name": "pvt_gas"}, "p_i": 8000.0, "p_f": 7990.0, "alpha_branch": False, "schedule": None, "reused": False, "grid": {"family": "quadratic", "nt": 85001, "t_end": 0.5, "seed": 0}})
     for _ in range(n):
         d = sim.random_sim_desc(rng, ck.tier, twophase_share=0.08)
         if d["cls"] == "ideal" and rng.random() < 0.5:
@@ -101,7 +105,39 @@ def _threads_case(ck, desc):
     return nontrivial, {"threads": len(runs), "nx": desc["runs"][0]["nx"]}
 
 
+def _huge_case(ck, desc):
+    """One very long history (nx x nt beyond 2^24 and 2^25 values): the stored levels are still double
+    precision and still satisfy the update at rounding level - judged on the first, the last and a
+    middle block of 40 steps (the whole history would need a dozen 140 MB work arrays)."""
+    res, time, sched, fluid, _ = sim.build(desc)
+    sim.SIM_EVENTS.clear()
+    sim.simulate(res, time, sched)
+    ev = sim.SIM_EVENTS.pop() if sim.SIM_EVENTS else None
+    sim.SIM_EVENTS.clear()
+    if ev is None:
+        ck.inconclusive_because("postcondition on simulate did not fire for the long history")
+        return False, None
+    ck.count("contract_evaluations.simulate")
+    pp_live = res.pseudopressure
+    if np.asarray(pp_live).dtype != np.float64:
+        ck.violation("stored-levels-in-double-precision", {"dtype": str(np.asarray(pp_live).dtype), "shape": list(np.shape(pp_live))}, desc)
+    pp, t = ev["pp"], ev["time"]
+    m_i, m_f = sim.frac_face_values(desc, res, fluid, time, sched)
+    nt = pp.shape[0]
+    nontrivial = False
+    for a in (0, nt // 2, nt - 41):
+        r = sim.step_residuals(res, desc["cls"], t[a : a + 41], np.asarray(pp[a : a + 41], dtype=float), m_i, m_f[a : a + 41], alpha_fn=sim.alpha_var_fn(desc))
+        ck.count("steps_checked", 40)
+        if not ck.margin("row residual / rounding tolerance (long history)", r["worst_ratio"], 1.0):
+            ck.violation("backward-euler-residual", {"worst_ratio": r["worst_ratio"], "block_starting_at_step": int(a), "values_stored": int(pp.size), "dtype": str(np.asarray(pp_live).dtype)}, desc)
+        nontrivial = nontrivial or r["n_constraining"] >= 3
+    ck.count("long_histories")
+    return nontrivial, {"values": int(pp.size)}
+
+
 def run_case(ck, desc):
+    if desc.get("kind") == "huge":
+        return _huge_case(ck, desc)
     if desc.get("kind") == "threads":
         return _threads_case(ck, desc)
     res, time, sched, fluid, _ = sim.build(desc)
